@@ -382,8 +382,10 @@ theorem nh_seekCur (d : Nat) : NH (seekCur d) := by
   unfold NHs seekCur
   split
   · exact Nat.le_refl _
-  · show (s.rest.drop d).length ≤ s.rest.length
-    simp [List.length_drop]
+  · split
+    · exact Nat.le_refl _
+    · show (s.rest.drop d).length ≤ s.rest.length
+      simp [List.length_drop]
 
 theorem nh_setRow (site : String) (d : Dest) (y : Int) (px : List Nat) : NH (d.setRow site y px) := by
   unfold Dest.setRow; nh_tac
